@@ -27,8 +27,17 @@ def gen_history(rng, maxlen):
         if lay.top[v][1] == 'file':
             lay.top[v][1] = 'absent'
             lay.tree = [e for e in lay.tree if e[1] != lay.top2(v)]
+    # sometimes one volume has no usable trash directory at all: with --home-fallback its files go to the home trash ACROSS file
+    # systems (copy + delete), and a fault in the middle of that copy must not leave anything trash-list would show
+    dead = None
+    if lay.vols and rng.random() < 0.35:
+        dead = rng.choice(lay.vols)
+        lay.top[dead] = ['file', 'file']
+        lay.tree = [e for e in lay.tree if not (e[1] == lay.j(dead, '.Trash') or e[1].startswith(lay.j(dead, '.Trash') + '/')
+                                                or e[1] == lay.top2(dead) or e[1].startswith(lay.top2(dead) + '/') or e[1] == lay.j(dead, 'realtrash'))]
+        lay.tree += [['f', lay.j(dead, '.Trash'), 'not a directory'], ['f', lay.top2(dead), 'not a directory']]
     roots = [lay.home] + lay.vols
-    names = ['a', 'b', 'foo', 'foo.txt', 'a b', 'é', 'x%y', 'x%41y', 'p%20q']
+    names = ['a', 'b', 'foo', 'foo.txt', 'a b', 'é', 'x%y', 'x%41y', 'p%20q', '...', '....', '.hid']
     nodes = scen.canary()
     files = []
     for r in roots:
@@ -70,7 +79,15 @@ def gen_history(rng, maxlen):
         t += datetime.timedelta(days=rng.choice([0, 0, 1, 3]), seconds=rng.randint(1, 50))
         if r < 0.5:
             p = rng.choice(files)
-            steps.append({'cmd': 'put', 'argv': ['--', p], 'now': [t.year, t.month, t.day, t.hour, t.minute, t.second, 0]})
+            st = {'cmd': 'put', 'argv': ['--', p], 'now': [t.year, t.month, t.day, t.hour, t.minute, t.second, 0]}
+            if dead is not None and (p == dead or p.startswith(dead + '/')):
+                st['argv'] = ['--home-fallback'] + st['argv']
+                st['env'] = {'TRASH_ENABLE_HOME_FALLBACK': '1'}
+                if rng.random() < 0.5:
+                    st['plan'] = {'sysfault': [rng.randint(2, 9), rng.choice([13, 28, 5, 1])]}
+            elif rng.random() < 0.08:
+                st['plan'] = {'sysfault': [rng.randint(1, 5), rng.choice([13, 28, 5, 1])]}
+            steps.append(st)
             plan.append(('put', p, t))
         elif r < 0.7:
             scope = rng.choice(['/', lay.home] + lay.vols)
